@@ -354,7 +354,10 @@ def run(chk):
             scases += [evalsrc_case(a), evalsrc_case(b)]
             slabels += [a, b]
     for a, b in [("!!i1", "!(!i1)"), ("!!s1 == true", "(!(!s1)) == true"), ("--u1", "-(-u1)"), ("--imin", "-(-imin)"), ("!!!l1", "!(!(!l1))"),
-                 ("[!!i0, --d1]", "[!(!i0), -(-d1)]"), ("!!nl ? 1 : 2", "!(!nl) ? 1 : 2"), ("----i1", "-(-(-(-i1)))"), ("--s1", "-(-s1)")]:
+                 ("[!!i0, --d1]", "[!(!i0), -(-d1)]"), ("-2.5.max(1)", "-(2.5.max(1))"), ("-3 .max(1)", "-(3 .max(1))"),
+                 ("-2.5.min(9.0)", "-(2.5.min(9.0))"), ("--2.5.max(1)", "-(-(2.5.max(1)))"), ("-7 .fargs()", "-(7 .fargs())"),
+                 ("!0 .max(1)", "!(0 .max(1))"), ("-1.5.coalesce()", "-(1.5.coalesce())"), ("[-2.5.max(1), -3 .min(5)]", "[-(2.5.max(1)), -(3 .min(5))]"),
+                 ("-'ab'.size()", "-('ab'.size())"), ("-[1, 2].size()", "-([1, 2].size())"), ("-2[0]", "-(2[0])"), ("-1 .a", "-(1 .a)"), ("!!nl ? 1 : 2", "!(!nl) ? 1 : 2"), ("----i1", "-(-(-(-i1)))"), ("--s1", "-(-s1)")]:
         scases += [evalsrc_case(a), evalsrc_case(b)]
         slabels += [a, b]
     simpl, _ = tie(chk, "prefix runs split by parentheses (value)", scases, labels=slabels)
